@@ -7,7 +7,7 @@ assumption convergence fails (design observation, DESIGN.md 11.7).
 R2 -> R3 -> R4: TLC-simulated sequences of file-system steps and MultiEpoch methods are executed on the real MultiEpoch
 (real config files, Epoch objects with close tracking) and every reply / epoch list / closed set is validated by TLC
 against the model (Trace_EpochOps, true trace validation with ENABLED-based skip).
-Verdict policy: only what C09 states is a violation - an operation that panics, or an epoch list that is not duplicate-free
+Verdict policy: only what C09 states is a violation - an operation that panics or does not return within 5 s, or an epoch list that is not duplicate-free
 and sorted newest first; any other deviation from the model is DRIFT (reported, exit code unaffected)."""
 from core import Inconclusive, sha
 
@@ -40,7 +40,9 @@ def run_epochops(ctx, q):
     b = ctx.go_build(".", ov, name="main_epochops")
     obs = ctx.go_run(b, "^TestVerifEpochOps$", cases=casep, out="epochops_obs.ndjson", timeout_s=1200)
     cfg = "SPECIFICATION TSpec\n" + CONST % (three + (1000, 1000, "FALSE")) + "CONSTRAINT HW\nPOSTCONDITION Done\nCHECK_DEADLOCK FALSE\n"
-    rejected = ctx.r4_judge(["EpochOps", "Trace_EpochOps"], "Trace_EpochOps", obs, cfg_text=cfg, chunk=10 ** 9, timeout_s=2400)
+    # (a panic / hang text in place of an integer reply would be a type error in the judge: it gets an integer no step produces)
+    jobs = [dict(o, reply=-99) if o["op"] in ("new", "removeByFile") and isinstance(o["reply"], str) else o for o in obs]
+    rejected = ctx.r4_judge(["EpochOps", "Trace_EpochOps"], "Trace_EpochOps", jobs, cfg_text=cfg, chunk=10 ** 9, timeout_s=2400)
     for o in obs:
         if o["op"] != "reset":
             ctx.count(sha([o["op"], o["args"], o["numbers"], o["closed"]]), o["op"] not in ("has", "hasSameHash"))
@@ -48,9 +50,9 @@ def run_epochops(ctx, q):
         o = obs[i]
         nums = o["numbers"]
         bad_list = any(nums[k] <= nums[k + 1] for k in range(len(nums) - 1))
-        panicked = isinstance(o["reply"], str) and o["reply"].startswith("panic")
+        panicked = isinstance(o["reply"], str) and (o["reply"].startswith("panic") or o["reply"] == "hang")
         if bad_list or panicked:
-            ctx.violation({"op": "epochops", "what": "panic" if panicked else "epoch list"},
+            ctx.violation({"op": "epochops", "what": ("hang" if o["reply"] == "hang" else "panic") if panicked else "epoch list"},
                           f"sequential replay on the real MultiEpoch: {o['op']}{o['args']} -> reply {o['reply']}, epoch list {nums}", obs=o)
         else:
             ctx.drift += 1
